@@ -115,6 +115,11 @@ def _structure(token, plan, f, tag):
 
 def run_case(case) -> dict:
     plan = case["plan"]
+    # half of the plans with party information carry only one of apu / apv: the absent one is an empty, length-prefixed field of the KDF input
+    if "apu" in plan["protected"] and case["seed"] % 4 >= 2:
+        drop = "apu" if case["seed"] % 4 == 2 else "apv"
+        plan = {**plan, "protected": {k: v for k, v in plan["protected"].items() if k != drop}}
+        case = {**case, "plan": plan}
     pt = bytes.fromhex(plan["plaintext_hex"])
     algs = [r["alg"] for r in plan["recipients"]]
     tag = f"{plan['ser']}"
